@@ -5,8 +5,15 @@ on a data-source object that already served that session, a different session an
 price queries, (c) in fresh interpreters started with PYTHONHASHSEED = 0..k; fills (order ids never
 appear in what is compared), equity curve, allocation rows / table and their column order are compared
 bit for bit.  There is no oracle beyond equality of the runs.
+
+A second, much cheaper family of cases (clause ``sizers-and-pcm-hash-seed-independent``) calls the REAL order
+sizers and the REAL PortfolioConstructionModel directly (stub broker / price source) on weight dictionaries
+built to be sensitive to the order of a float summation and to sit on the integer boundaries of the sizers'
+floor / ceil / int(), in fresh interpreters with PYTHONHASHSEED = 0..h; target quantities, the full asset list,
+the allocation row and the order list are compared bit for bit between the interpreters.
 """
 import datetime as dt
+import itertools
 import json
 import os
 import random
@@ -21,9 +28,13 @@ if __package__ in (None, ""):
 from . import _market as M  # noqa: E402
 
 PROPERTY = "C18"
-CLAUSES = ["same-process-repeat", "shared-datasource-repeat", "hash-seed-independent", "allocation-column-order"]
+SESSION_CLAUSES = ["same-process-repeat", "shared-datasource-repeat", "hash-seed-independent", "allocation-column-order"]
+MICRO = "sizers-and-pcm-hash-seed-independent"
+CLAUSES = SESSION_CLAUSES + [MICRO]
 N_QUICK, K_QUICK = 6, 2
 N_THOROUGH, K_THOROUGH = 320, 15
+M_QUICK, H_QUICK = 400, 6            # direct sizer / PCM cases, interpreters (PYTHONHASHSEED = 0..H-1)
+M_THOROUGH, H_THOROUGH = 3000, 32
 BOUND = (
     "Sampled, not exhaustive. Case i = gen_case(seed, i) from random.Random('c18:<seed>:<i>'): 3-6 assets, synthetic "
     "random-walk market, 4-9 week range; configuration cycling with i mod 4 through (0) dynamic universe in which three "
@@ -36,8 +47,24 @@ BOUND = (
     "of type asset_transaction (dt, description, debit, credit, balance) and the recorded transactions (time, "
     "asset, quantity, price, commission), the equity curve and get_equity_curve(), the allocation rows and "
     "get_target_allocations() (values by column name under the three run clauses; key order of every row and the "
-    "table's column order under allocation-column-order). quick: %d cases, k=%d; thorough: %d cases, k=%d."
-    % (N_QUICK, K_QUICK, N_THOROUGH, K_THOROUGH))
+    "table's column order under allocation-column-order). quick: %d cases, k=%d; thorough: %d cases, k=%d. "
+    "Clause sizers-and-pcm-hash-seed-independent (also sampled): direct case j = gen_micro(seed, j) from "
+    "random.Random('c18m:<seed>:<j>'), j mod 4 -> LongShortLeveragedOrderSizer (0, 1), "
+    "DollarWeightedCashBufferedOrderSizer (2), PortfolioConstructionModel._obtain_full_asset_list + __call__ around "
+    "one of the two sizers with a real StaticUniverse / FixedSignalsAlphaModel / FixedWeightPortfolioOptimiser and "
+    "0-4 held assets of which some are outside the universe (3); stub broker (fixed total equity, real ZeroFeeModel or "
+    "PercentFeeModel(0.001, 0.0005) on 1 case in 5) and stub price source. Weight dictionaries: 3-6 assets on the "
+    "main side, 1-6 on the other (long/short) or 3-6 positive weights (long only), magnitudes either a ladder "
+    "u, 2u, .., nu, or k*u with k in {1,2,3,4,6,7} and u in {0.1, 0.2, 0.3, 0.7, 1/3, 1e-3, 0.05, 0.15}, or drawn "
+    "from {0.1, 0.2, 0.3, 0.7, 1/3, 1e-3, 0.6, 0.4, 0.15, 0.05, 1.0, 2.5e-3}; a single opposite asset balances the "
+    "book (dollar neutral); a zero weight on 1 case in 5; shuffled insertion order; asset names 'EQ:AAA'..'EQ:HHH' "
+    "and 48 fixed random-looking tickers of 3-8 characters; equity in {1e6, 3e5, 123456.0}, prices in {100.0, 50.0, "
+    "12.5, 1.0}, gross leverage in {1, 2, 0.5}, cash buffer in {0, 0.05}. Every case is evaluated in every one of h "
+    "fresh interpreters (PYTHONHASHSEED = 0..h-1, one interpreter per hash seed for the whole list) and the results "
+    "(target quantities in the order of the returned dict; for PCM cases also the full asset list, the allocation "
+    "row with its key order, and the (asset, quantity) order list in order) are compared with those of "
+    "PYTHONHASHSEED=0. quick: %d cases, h=%d; thorough: %d cases, h=%d."
+    % (N_QUICK, K_QUICK, N_THOROUGH, K_THOROUGH, M_QUICK, H_QUICK, M_THOROUGH, H_THOROUGH))
 
 SYMS = ["AAA", "BBB", "CCC", "DDD", "EEE", "FFF"]
 KINDS = [("weekly", "MON"), ("weekly", "TUE"), ("weekly", "WED"), ("weekly", "THU"), ("weekly", "FRI"),
@@ -230,8 +257,284 @@ def _worker(args):
         return check_cases(cases, k)
     except Exception as exc:  # noqa: BLE001  (never raise out of run(): report it against every clause)
         why = "check could not be evaluated: %s: %s" % (type(exc).__name__, exc)
-        return [{"case": dict(case, k=k), "results": [(c, False, why, None) for c in CLAUSES], "n": [0, 0, 0],
+        return [{"case": dict(case, k=k), "results": [(c, False, why, None) for c in SESSION_CLAUSES], "n": [0, 0, 0],
                  "error": why} for case in cases]
+
+
+# --------------------------------------------------------------------------------------------------
+# direct sizer / PCM cases (clause sizers-and-pcm-hash-seed-independent)
+# --------------------------------------------------------------------------------------------------
+NAMES_SHORT = ["EQ:%s" % (c * 3) for c in "ABCDEFGH"]
+UNITS = [0.1, 0.2, 0.3, 0.7, 1.0 / 3.0, 1e-3, 0.05, 0.15]
+POOL = [0.1, 0.2, 0.3, 0.7, 1.0 / 3.0, 1e-3, 0.6, 0.4, 0.15, 0.05, 1.0, 2.5e-3]
+EQUITIES = [1e6, 3e5, 123456.0]
+PRICES = [100.0, 50.0, 12.5, 1.0]
+MICRO_DT = "2020-01-15 14:30"
+MICRO_KEPT = 5                      # failure records kept for the clause (all of them are counted)
+
+
+def _tickers():
+    rng = random.Random("c18m:tickers")
+    letters, out = "ABCDEFGHIJKLMNOPQRSTUVWXYZ", []
+    while len(out) < 48:
+        n = rng.choice([3, 4, 4, 5, 6, 8])
+        t = "".join(rng.choice(letters if j in (0, n - 1) else letters + "0123456789.-") for j in range(n))
+        if "EQ:%s" % t not in out and "EQ:%s" % t not in NAMES_SHORT:
+            out.append("EQ:%s" % t)
+    return out
+
+
+TICKERS = _tickers()
+
+
+def _dec(x):
+    """x as the nearest short decimal literal (0.1 * 3 -> 0.3)."""
+    return float("%.10g" % x)
+
+
+def _mags(rng, n, style, u):
+    """n positive magnitudes and, for the structured styles, the integer multipliers behind them."""
+    if style == "pool":
+        return [rng.choice(POOL) for _ in range(n)], None
+    ks = list(range(1, n + 1)) if style == "ladder" else [rng.choice([1, 2, 3, 4, 6, 7]) for _ in range(n)]
+    exact = style == "ladder" or rng.random() < 0.5
+    return [(_dec(k * u) if exact else k * u) for k in ks], ks
+
+
+def _pick_names(rng, n):
+    pool = [NAMES_SHORT, TICKERS, NAMES_SHORT + TICKERS][rng.randrange(3)]
+    if n > len(pool):
+        pool = NAMES_SHORT + TICKERS
+    return rng.sample(pool, n)
+
+
+def gen_micro(seed, j):
+    rng = random.Random("c18m:%s:%s" % (seed, j))
+    kind = ("long_short", "long_short", "dollar_weighted", "pcm")[j % 4]
+    sizer = kind if kind != "pcm" else rng.choice(["long_short", "long_short", "dollar_weighted"])
+    style = rng.choice(["ladder", "ladder", "ladder", "multiples", "multiples", "multiples", "pool", "pool"])
+    u = rng.choice([0.1, 0.1, 0.1, 0.05, 1e-3, 0.2]) if style == "ladder" else rng.choice(UNITS)
+    n_main = rng.choice([3, 3, 4, 5, 6])
+    main, ks = _mags(rng, n_main, style, u)
+    signed = []
+    if sizer == "long_short":
+        n_other = rng.choice([1, 1, 1, 2, 3, 4, 5, 6])
+        if n_other == 1 and ks is not None:
+            other = [_dec(sum(ks) * u)]                       # one asset balances the book (dollar neutral)
+        else:
+            other = _mags(rng, n_other, style, u)[0]
+        sign = -1.0 if rng.random() < 0.75 else 1.0           # the side of 3+ assets is mostly the short one
+        signed = [sign * m for m in main] + [-sign * m for m in other]
+    else:
+        signed = list(main)
+    if rng.random() < 0.2:
+        signed.append(0.0)
+    extra = rng.choice([0, 1, 2]) if kind == "pcm" else 0     # held assets that are not in the universe
+    names = _pick_names(rng, len(signed) + extra)
+    items = list(zip(names, signed))
+    order = rng.randrange(3)
+    if order == 0:
+        rng.shuffle(items)
+    elif order == 1:
+        items.sort()
+    case = {
+        "id": j, "kind": kind, "sizer": sizer, "weights": {a: w for a, w in items}, "equity": rng.choice(EQUITIES),
+        "gross_leverage": rng.choice([1.0, 1.0, 2.0, 0.5]), "cash_buffer": rng.choice([0.0, 0.05]),
+        "fee": [0.001, 0.0005] if rng.random() < 0.2 else None,
+    }
+    flat = rng.random() < 0.4
+    case["prices"] = {a: (100.0 if flat else rng.choice(PRICES)) for a in sorted(names)}
+    if kind == "pcm":
+        universe = [a for a, _ in items]
+        rng.shuffle(universe)
+        held = names[len(signed):] + rng.sample(universe, rng.choice([0, 1, 2]))
+        rng.shuffle(held)
+        lo = 1 if sizer == "dollar_weighted" else -5000
+        case["universe"] = universe
+        case["holdings"] = {a: rng.choice([rng.randint(lo, 5000), 100, 2500]) for a in held}
+    return case
+
+
+def order_sensitive(weights):
+    """True when the left-to-right double sum of the magnitudes of one side (3+ assets) depends on their order."""
+    for side in ([w for w in weights.values() if w > 0.0], [-w for w in weights.values() if w < 0.0]):
+        if len(side) < 3:
+            continue
+        first = None
+        for perm in itertools.permutations(side):
+            total = 0.0
+            for x in perm:
+                total = total + x
+            if first is None:
+                first = total
+            elif total != first:
+                return True
+    return False
+
+
+class _StubBroker(object):
+    def __init__(self, equity, fee, holdings):
+        self.equity, self.holdings = equity, holdings
+        self.fee_model = M.ZeroFeeModel() if fee is None else M.PercentFeeModel(commission_pct=fee[0], tax_pct=fee[1])
+
+    def get_portfolio_total_equity(self, portfolio_id):
+        return self.equity
+
+    def get_portfolio_as_dict(self, portfolio_id):
+        return {a: {"quantity": q} for a, q in self.holdings.items()}
+
+
+class _StubPrices(object):
+    def __init__(self, prices):
+        self.prices = prices
+
+    def get_asset_latest_ask_price(self, dt, asset):
+        return self.prices[asset]
+
+
+def _quantities(target):
+    return [[a, repr(d["quantity"])] for a, d in target.items()]
+
+
+def micro_eval(case):
+    """One direct case on the REAL sizer / PCM.  Everything observed is text (repr / float.hex) in its own order."""
+    from qstrader.portcon.order_sizer.dollar_weighted import DollarWeightedCashBufferedOrderSizer
+    from qstrader.portcon.order_sizer.long_short import LongShortLeveragedOrderSizer
+    from qstrader.portcon.optimiser.fixed_weight import FixedWeightPortfolioOptimiser
+    from qstrader.portcon.pcm import PortfolioConstructionModel
+    try:
+        when = M.ts(MICRO_DT)
+        broker = _StubBroker(case["equity"], case["fee"], dict(case.get("holdings") or {}))
+        prices = _StubPrices(dict(case["prices"]))
+        if case["sizer"] == "long_short":
+            sizer = LongShortLeveragedOrderSizer(broker, M.PORTFOLIO_ID, prices, gross_leverage=case["gross_leverage"])
+        else:
+            sizer = DollarWeightedCashBufferedOrderSizer(broker, M.PORTFOLIO_ID, prices,
+                                                         cash_buffer_percentage=case["cash_buffer"])
+        weights = dict(case["weights"])
+        if case["kind"] != "pcm":
+            return {"target": _quantities(sizer(when, weights))}
+        targets = []
+
+        def recording_sizer(dt_, ws):
+            target = sizer(dt_, ws)
+            targets.append(_quantities(target))
+            return target
+
+        pcm = PortfolioConstructionModel(
+            broker, M.PORTFOLIO_ID, M.StaticUniverse(list(case["universe"])), recording_sizer,
+            FixedWeightPortfolioOptimiser(data_handler=prices), alpha_model=M.FixedSignalsAlphaModel(weights),
+            data_handler=prices)
+        full = list(pcm._obtain_full_asset_list(when))
+        stats = {"target_allocations": []}
+        orders = pcm(when, stats=stats)
+        row = stats["target_allocations"][-1]
+        return {"full_assets": full,
+                "allocation_row": [[k, float(v).hex()] for k, v in row.items() if k != "Date"],
+                "target": targets[-1], "orders": [[o.asset, repr(o.quantity)] for o in orders]}
+    except Exception as exc:  # noqa: BLE001  (an exception is a result too: it must not depend on the hash seed)
+        return {"error": "%s: %s" % (type(exc).__name__, exc)}
+
+
+class MicroRun(object):
+    """One fresh interpreter per hash seed, each evaluating the whole list of cases; at most `width` at a time.
+    Input, output and stderr go through files of one TemporaryDirectory (removed by finish())."""
+
+    def __init__(self, cases, hash_seeds, width):
+        self.cases, self.hash_seeds = cases, list(hash_seeds)
+        self.tmp = tempfile.TemporaryDirectory(prefix="c18m_")
+        self.pending, self.running, self.results = list(self.hash_seeds), [], {}
+        try:
+            with open(os.path.join(self.tmp.name, "cases.json"), "w") as fh:
+                json.dump({"cases": cases}, fh)
+            for _ in range(max(1, width)):
+                self._launch()
+        except BaseException:
+            self.abort()
+            raise
+
+    def _launch(self):
+        if not self.pending:
+            return
+        h = self.pending.pop(0)
+        env = dict(os.environ)
+        env["PYTHONHASHSEED"] = str(h)
+        base = os.path.join(self.tmp.name, "seed%d" % h)
+        with open(os.path.join(self.tmp.name, "cases.json")) as fin, open(base + ".out", "w") as fout, \
+                open(base + ".err", "w") as ferr:
+            p = subprocess.Popen([sys.executable, os.path.abspath(__file__), "--micro-child"], stdin=fin, stdout=fout,
+                                 stderr=ferr, env=env, text=True)
+        self.running.append((h, p, base))
+
+    def finish(self):
+        """{hash seed: [result per case]} or {hash seed: {"child_failed": text}}."""
+        try:
+            while self.running:
+                h, p, base = self.running.pop(0)
+                p.wait()
+                self._launch()
+                with open(base + ".out") as fh:
+                    out = fh.read()
+                res = None
+                if p.returncode == 0:
+                    try:
+                        res = json.loads(out.strip().splitlines()[-1])
+                    except (ValueError, IndexError):
+                        res = None
+                if not isinstance(res, list) or len(res) != len(self.cases):
+                    with open(base + ".err") as fh:
+                        res = {"child_failed": "exit status %s; stderr: %s" % (p.returncode, fh.read()[-400:])}
+                self.results[h] = res
+            return self.results
+        finally:
+            self.abort()
+
+    def abort(self):
+        for _, p, _ in self.running:
+            try:
+                p.kill()
+                p.wait()
+            except OSError:
+                pass
+        self.running = []
+        self.tmp.cleanup()
+
+
+def micro_records(cases, results):
+    """One (ok, case, observed, expected, size) per case (all interpreters against the lowest hash seed), preceded
+    by one failing record per interpreter that did not deliver."""
+    recs = []
+    good = [h for h in sorted(results) if isinstance(results[h], list)]
+    for h in sorted(results):
+        if h not in good:
+            recs.append((False, {"micro": None, "seeds": [h]}, results[h], "a result list from the interpreter", 0))
+    if not good:
+        return recs
+    ref = good[0]
+    for ci, case in enumerate(cases):
+        expected = results[ref][ci]
+        bad = [h for h in good[1:] if results[h][ci] != expected]
+        seeds = [ref, bad[0]] if bad else [ref, good[-1]]
+        observed = results[bad[0]][ci] if bad else expected
+        recs.append((not bad, {"micro": case, "seeds": seeds},
+                     dict(observed, PYTHONHASHSEED=seeds[1], differing_hash_seeds=bad[:8]),
+                     dict(expected, PYTHONHASHSEED=ref), len(case["weights"]) + len(case.get("holdings") or {})))
+    return recs
+
+
+def micro_tally(tally, recs):
+    """All records are counted; only the MICRO_KEPT smallest failures are kept as records (they would otherwise push
+    every session-level failure out of the 25 kept ones)."""
+    failing = sorted([r for r in recs if not r[0]], key=lambda r: r[4])
+    kept = set(id(r) for r in failing[:MICRO_KEPT])
+    for r in recs:
+        ok, case, observed, expected, size = r
+        if ok or id(r) in kept:
+            tally.check(MICRO, ok, case, observed, expected, size=size)
+        else:
+            tally.clauses[MICRO]["checked"] += 1
+            tally.clauses[MICRO]["failed"] += 1
+            tally.n_failures += 1
 
 
 def run(tier="quick", seed=0, budget_s=60.0, jobs=1):
@@ -239,6 +542,44 @@ def run(tier="quick", seed=0, budget_s=60.0, jobs=1):
     n, k = (N_QUICK, K_QUICK) if tier == "quick" else (N_THOROUGH, K_THOROUGH)
     tally = M.Tally(CLAUSES)
     seen, counts, samples = set(), {"ev": 0, "nt": 0, "runs": 0}, []
+    m_n, m_h = (M_QUICK, H_QUICK) if tier == "quick" else (M_THOROUGH, H_THOROUGH)
+    m_cases = [gen_micro(seed, j) for j in range(m_n)]
+    # the direct sizer / PCM interpreters work while the sessions run (quick: all of them at once)
+    micro = MicroRun(m_cases, range(m_h), m_h if tier == "quick" else max(4, jobs))
+    try:
+        _sessions(tier, seed, budget_s, jobs, budget, n, k, tally, seen, counts, samples)
+        done_all = counts.pop("done_all")
+    except BaseException:
+        micro.abort()
+        raise
+    m_recs = micro_records(m_cases, micro.finish())
+    micro_tally(tally, m_recs)
+    m_keys = set(json.dumps(c, sort_keys=True) for c in m_cases)
+    m_nt = [c for c in m_cases if order_sensitive(c["weights"])]
+    m_nt_keys = set(json.dumps(c, sort_keys=True) for c in m_nt)
+    for kind in ("long_short", "pcm"):
+        samples.extend([{"direct_case": c} for c in m_nt if c["kind"] == kind][:1])
+    return {
+        "evaluations": counts["ev"] + len(m_cases), "distinct_nontrivial": counts["nt"] + len(m_nt_keys),
+        "rule": ("case i = gen_case(seed, i) (see BOUND); one evaluation = one case = %d real sessions (decoy, A, B, C, "
+                 "unrelated, D in process + %d fresh interpreters), %d sessions in total; distinct = distinct (market "
+                 "spec, configuration) JSON; non-trivial = run A completed with at least one fill and one allocation "
+                 "row. %s. Plus %d direct sizer / PCM cases j = gen_micro(seed, j) (%d distinct JSON), each evaluated in "
+                 "%d fresh interpreters (PYTHONHASHSEED = 0..%d) = %d real sizer / PCM calls, counted as one evaluation "
+                 "each; such a case is non-trivial when one side has 3+ assets and the left-to-right double sum of its "
+                 "magnitudes takes different values for different orders of the addends (%d of them). evaluations = "
+                 "%d session cases + %d direct cases; distinct_nontrivial = %d + %d"
+                 % (6 + k + 1, k + 1, counts["runs"],
+                    "all %d cases of the tier ran" % n if done_all else "stopped early on budget_s",
+                    len(m_cases), len(m_keys), m_h, m_h - 1, len(m_cases) * m_h, len(m_nt_keys),
+                    counts["ev"], len(m_cases), counts["nt"], len(m_nt_keys))),
+        "samples": samples, "exhaustive": False, "clauses": tally.clauses,
+        "n_failures": tally.n_failures, "failures": tally.kept_failures(),
+    }
+
+
+def _sessions(tier, seed, budget_s, jobs, budget, n, k, tally, seen, counts, samples):
+    """The session-level cases (four clauses); leaves counts["done_all"]."""
     done_all = True
 
     def absorb(recs):
@@ -276,21 +617,14 @@ def run(tier="quick", seed=0, budget_s=60.0, jobs=1):
             if budget.left() < 10.0 and done < len(tasks):
                 done_all = False
                 break
-    return {
-        "evaluations": counts["ev"], "distinct_nontrivial": counts["nt"],
-        "rule": ("case i = gen_case(seed, i) (see BOUND); one evaluation = one case = %d real sessions (decoy, A, B, C, "
-                 "unrelated, D in process + %d fresh interpreters), %d sessions in total; distinct = distinct (market "
-                 "spec, configuration) JSON; non-trivial = run A completed with at least one fill and one allocation "
-                 "row. %s" % (6 + k + 1, k + 1, counts["runs"],
-                              "all %d cases of the tier ran" % n if done_all else "stopped early on budget_s")),
-        "samples": samples, "exhaustive": False, "clauses": tally.clauses,
-        "n_failures": tally.n_failures, "failures": tally.kept_failures(),
-    }
+    counts["done_all"] = done_all
 
 
 def replay(case):
     clause = case.get("clause") if "cfg" not in case else None     # a whole failure record is accepted too
     inner = case.get("case", case)
+    if "micro" in inner:
+        return replay_micro(inner)
     recs = check_cases([{"market": inner["market"], "cfg": inner["cfg"]}], int(inner.get("k", K_QUICK)))
     bad = [(c, o, e) for c, ok, o, e in recs[0]["results"] if not ok and (clause is None or c == clause)]
     if not bad:
@@ -298,7 +632,25 @@ def replay(case):
     return {"reproduced": True, "clause": bad[0][0], "observed": bad[0][1], "expected": bad[0][2]}
 
 
+def replay_micro(inner):
+    """Just that direct case again, in two fresh interpreters with the two recorded hash seeds."""
+    seeds = [int(h) for h in inner.get("seeds") or [0, 1]]
+    if inner.get("micro") is None:                                  # "an interpreter did not deliver": all of them again
+        cases, seeds = [gen_micro(0, j) for j in range(8)], sorted(set(seeds + [0]))
+    else:
+        cases = [inner["micro"]]
+    recs = micro_records(cases, MicroRun(cases, seeds, len(seeds)).finish())
+    bad = [r for r in recs if not r[0]]
+    if not bad:
+        return {"reproduced": False, "clause": MICRO, "observed": None, "expected": None}
+    return {"reproduced": True, "clause": MICRO, "observed": M.jsonable(bad[0][2]), "expected": M.jsonable(bad[0][3])}
+
+
 if __name__ == "__main__":
+    if len(sys.argv) > 1 and sys.argv[1] == "--micro-child":
+        payload = json.loads(sys.stdin.read())
+        sys.stdout.write(json.dumps([micro_eval(c) for c in payload["cases"]]) + "\n")
+        sys.exit(0)
     if len(sys.argv) > 1 and sys.argv[1] == "--child":
         payload = json.loads(sys.stdin.read())
         sys.stdout.write(json.dumps(child_run(payload["cases"])) + "\n")
